@@ -1,17 +1,18 @@
 #!/bin/sh
-# lib/confirm_mutant.sh <mutant-dir>   (dir holds patch.diff and demo.rs)
-# Confirms in a scratch worktree: unchanged tree: lib tests pass + demo passes; changed tree: builds, lib tests pass, demo fails.
+# lib/confirm_mutant.sh <mutant-dir>   (dir holds patch.diff and demo.rs; demo.rs may start with "// features: a b c")
+# Confirms in a scratch worktree: unchanged tree: demo passes; changed tree: builds (default + all features), lib tests pass, demo fails.
 D=$(realpath $1); W=/tmp/wt/confirm
 git -C /repo worktree remove --force $W 2>/dev/null
 git -C /repo worktree add -q $W HEAD || exit 9
 cp /repo/Cargo.lock $W/; mkdir -p $W/tests; cp $D/demo.rs $W/tests/demo_mut.rs
+FEAT=$(head -1 $D/demo.rs | sed -n 's,^// features: *,,p')
 cd $W
 export CARGO_NET_OFFLINE=true CARGO_TARGET_DIR=/tmp/wt/confirm-target
-base_demo=$(cargo test --offline --test demo_mut 2>&1 | grep -E "^test result" | tail -1)
+base_demo=$(cargo test --offline --features "$FEAT" --test demo_mut 2>&1 | grep -E "^test result|^error" | tail -1)
 git apply $D/patch.diff || { echo "PATCH-DOES-NOT-APPLY"; exit 8; }
 mut_lib=$(cargo test --offline --lib 2>&1 | grep -E "^test result" | tail -1)
 mut_feat=$(cargo build --offline --features "vec8 vec16 vec32 vec64 uv uvw mint bytemuck az" 2>&1 | grep -cE "^error")
-mut_demo=$(cargo test --offline --test demo_mut 2>&1 | grep -E "^test result|error\[" | tail -1)
+mut_demo=$(cargo test --offline --features "$FEAT" --test demo_mut 2>&1 | grep -E "^test result|error\[" | tail -1)
 echo "unchanged: demo: $base_demo"
 echo "changed:   lib:  $mut_lib"
 echo "changed:   all-features build errors: $mut_feat"
